@@ -105,6 +105,12 @@ func (kc *KeyConditionImpl) genRPNElementByVal(
 	cols []*ColumnRef,
 	idx int,
 ) error {
+	switch op {
+	case influxql.MATCHPHRASE, influxql.IPINRANGE, influxql.MATCH, influxql.LIKE:
+		// not a comparison in key order: the primary index knows nothing about the atom
+		kc.rpn = append(kc.rpn, &RPNElement{op: rpn.AlwaysTrue})
+		return nil
+	}
 	rpnElem := &RPNElement{keyColumn: idx}
 	value := NewFieldRef(cols, idx, 0)
 	switch rhs := rhs.(type) {
@@ -124,6 +130,9 @@ func (kc *KeyConditionImpl) genRPNElementByVal(
 	}
 	if ok := genRPNElementByOp(op, value, rpnElem); ok {
 		kc.rpn = append(kc.rpn, rpnElem)
+	} else {
+		// every atom leaves exactly one element, otherwise AND/OR lose an operand
+		kc.rpn = append(kc.rpn, &RPNElement{op: rpn.AlwaysTrue})
 	}
 	return nil
 }
